@@ -185,7 +185,17 @@ func ttestRecord(out io.Writer, args []string) error {
 					}
 				}
 			}
-			muInt := []int64{0, sp / 2, -sp, off}[rng.Intn(4)]
+			// mu0: nothing, within the spread, at the offset, or far away from the data (2^20 times their magnitude: the
+			// differences are tiny relative to mu0)
+			far := off
+			if far < 0 {
+				far = -far
+			}
+			far += sp + 1
+			for sh := 0; sh < 20 && far < 1<<50; sh++ {
+				far <<= 1
+			}
+			muInt := []int64{0, sp / 2, -sp, off, far, -far}[rng.Intn(6)]
 			for _, kind := range []string{"pooled", "welch", "paired", "one"} {
 				for swap := 0; swap < 2; swap++ {
 					mus := []int64{0}
